@@ -40,7 +40,10 @@ var solvers = []solverDef{
 }
 
 // smtText renders one obligation as a self-contained SMT-LIB script (without solver-specific header).
-func (o *Obligation) smtText(extra []string) string {
+func (o *Obligation) smtText(extra []string) string { return o.smtTextS(extra, false) }
+
+// smtTextS with light=true leaves out quantified assumed invariants / callee postconditions.
+func (o *Obligation) smtTextS(extra []string, light bool) string {
 	var sb strings.Builder
 	g := o.Gen
 	if o.Cover {
@@ -54,7 +57,17 @@ func (o *Obligation) smtText(extra []string) string {
 		sb.WriteString(g.preamble())
 	}
 	for _, f := range g.facts[:o.NFacts] {
+		if light && hasQuant(f) {
+			continue
+		}
 		sb.WriteString("(assert " + f + ")\n")
+	}
+	if light {
+		for _, f := range o.LightExtra {
+			if !hasQuant(f) {
+				sb.WriteString("(assert " + f + ")\n")
+			}
+		}
 	}
 	for _, f := range o.Extra {
 		sb.WriteString("(assert " + f + ")\n")
@@ -64,6 +77,8 @@ func (o *Obligation) smtText(extra []string) string {
 	}
 	if o.Cover {
 		sb.WriteString("(assert " + o.Goal + ")\n")
+	} else if light && o.LightGoal != "" {
+		sb.WriteString("(assert (not " + o.LightGoal + "))\n")
 	} else {
 		sb.WriteString("(assert (not " + o.Goal + "))\n")
 	}
@@ -135,6 +150,12 @@ func runOne(ctx context.Context, sd solverDef, text string, timeout int, wantMod
 
 // solve races the solver portfolio on one SMT text.
 func solve(text string, timeout int, wantModel bool, all bool, tag string) *SolveResult {
+	return solve2(text, "", timeout, wantModel, all, tag)
+}
+
+// solve2 races the portfolio on the full text and, if given, on a lighter variant with fewer
+// hypotheses; "unsat" from either proves the obligation, "sat" is believed only from the full text.
+func solve2(text, light string, timeout int, wantModel bool, all bool, tag string) *SolveResult {
 	sum := sha256.Sum256([]byte(text))
 	h := hex.EncodeToString(sum[:])
 	key := h
@@ -156,19 +177,34 @@ func solve(text string, timeout int, wantModel bool, all bool, tag string) *Solv
 		out     string
 		seconds float64
 	}
-	ch := make(chan res, len(solvers))
+	nproc := len(solvers)
+	if light != "" && light != text {
+		nproc *= 2
+	}
+	ch := make(chan res, nproc)
 	for _, sd := range solvers {
 		sd := sd
 		go func() {
 			a, o, s := runOne(ctx, sd, text, timeout, wantModel, dir, sanitize(tag))
 			ch <- res{sd, a, o, s}
 		}()
+		if nproc > len(solvers) {
+			go func() {
+				sl := sd
+				a, o, s := runOne(ctx, sl, light, timeout, false, dir, sanitize(tag)+".light")
+				if a == "sat" {
+					a = "unknown" // fewer hypotheses: a model proves nothing
+				}
+				sl.name += "/light"
+				ch <- res{sl, a, o, s}
+			}()
+		}
 	}
 	final := &SolveResult{Answer: "unknown", All: map[string]string{}}
 	t0 := time.Now()
 	var errs []string
 	got := 0
-	for got < len(solvers) {
+	for got < nproc {
 		r := <-ch
 		got++
 		final.All[r.sd.name] = r.ans
@@ -207,7 +243,7 @@ func solve(text string, timeout int, wantModel bool, all bool, tag string) *Solv
 		if to > 0 {
 			final.Answer = "timeout"
 		}
-		if len(errs) == len(solvers) {
+		if len(errs) >= nproc {
 			final.Answer = "error"
 		}
 		final.Output = strings.Join(errs, "\n")
